@@ -72,6 +72,8 @@ pub fn run(seed: u64, rounds: u64) -> StressOut {
         let store: Arc<dyn Cache + Send + Sync> = if behind_policy { Arc::new(RandomPolicy::new(inner.clone(), 1 << 40)) } else { inner.clone() };
         let memc = Arc::new(memcrs::memcache::store::MemcStore::new(store.clone()));
         let appenders = (round / 2) % 2 == 1;
+        // with readers, every other time the new value has the very bytes of the expired one (a refresh with the same content)
+        let same_content = !appenders && (round / 4) % 2 == 1;
         let k = key("k");
         store.set(k.clone(), Record::new(key("old"), 0, 0, 1)).unwrap();
         clock.0.store(10, Ordering::SeqCst);
@@ -95,7 +97,7 @@ pub fn run(seed: u64, rounds: u64) -> StressOut {
             let (store, k, barrier, lost) = (store.clone(), k.clone(), barrier.clone(), lost.clone());
             hs.push(std::thread::spawn(move || {
                 barrier.wait();
-                if store.set(k.clone(), Record::new(key("new"), 0, 0, 0)).is_ok() && store.get(&k).is_err() {
+                if store.set(k.clone(), Record::new(key(if same_content { "old" } else { "new" }), 0, 0, 0)).is_ok() && store.get(&k).is_err() {
                     lost.fetch_add(1, Ordering::SeqCst);
                 }
             }));
@@ -107,12 +109,12 @@ pub fn run(seed: u64, rounds: u64) -> StressOut {
         let fin = store.get(&k);
         let where_ = if behind_policy { " (behind eviction policy random, limit out of reach)" } else { "" };
         if lost.load(Ordering::SeqCst) > 0 || fin.is_err() {
-            out.violations.push((vec!["C03", "C05", "C20"], format!("a store with TTL 0 acknowledged at time 10 is gone: concurrent {} were collecting its expired predecessor{} (round {})", if appenders { "appends" } else { "readers" }, where_, round)));
+            out.violations.push((vec!["C03", "C05", "C20"], format!("a store with TTL 0 acknowledged at time 10 is gone: concurrent {} were collecting its expired predecessor{}{} (round {})", if appenders { "appends" } else { "readers" }, where_, if same_content { ", whose value had the same bytes" } else { "" }, round)));
             break;
         }
         if let Ok(r) = fin {
             let (_, _, _, _, val) = r.verif_view();
-            if val.starts_with(b"old") {
+            if val.starts_with(b"old") && !same_content {
                 out.violations.push((vec!["C05", "C06", "C04", "C03"], format!("an append extended the EXPIRED value 'old' and overwrote the value 'new' stored in the meantime: final value {:?}{} (round {})", String::from_utf8_lossy(val), where_, round)));
                 break;
             }
